@@ -47,7 +47,7 @@ def _merge_stats(dst, src):
 
 
 def _worker(args):
-    spec, prefix, opts = args
+    spec, prefix, opts, expand_to = args
     try:
         fn = _load(spec)
         ex = Explorer(solver_timeout_ms=opts.get("solver_timeout_ms", 10000),
@@ -55,77 +55,93 @@ def _worker(args):
                       dump_dir=opts.get("dump_dir"), dump_every=opts.get("dump_every", 0),
                       dump_max=opts.get("dump_max", 0))
         t = time.time()
-        done = ex.explore(fn, prefix)
+        prof = _Profile()
+        count = [0]
+
+        def fn_prof(e):
+            count[0] += 1
+            if count[0] > 2:
+                return fn(e)
+            import threading
+
+            sys.setprofile(prof)
+            threading.setprofile(prof)
+            try:
+                return fn(e)
+            finally:
+                sys.setprofile(None)
+                threading.setprofile(None)
+
+        if expand_to is not None:
+            ex.depth_limit = expand_to
+        done = ex.explore(fn_prof, prefix)
         return dict(stats=ex.stats, violations=[dict(v) for v in ex.violations],
                     inconclusive=ex.inconclusive[:20], samples=ex.samples, notes=ex.notes,
-                    exhausted=done, wall=time.time() - t)
+                    exhausted=done, wall=time.time() - t, cuts=ex.cut_prefixes,
+                    functions=prof.names() if prof else [])
     except BaseException as e:  # harness bug or non-determinism: make it visible, never a pass
-        return dict(stats={}, violations=[], samples=[], notes={}, exhausted=False, wall=0.0,
+        return dict(stats={}, violations=[], samples=[], notes={}, exhausted=False, wall=0.0, cuts=[], functions=[],
                     inconclusive=["worker error: %s: %s\n%s" % (type(e).__name__, e, traceback.format_exc()[-1500:])])
 
 
 def run_obligation(name, spec, bounds, opts=None, shard_depth=None, log=None):
-    """Explore one obligation to exhaustion.  Returns a result dict."""
+    """Explore one obligation to exhaustion.  Returns a result dict.
+
+    Phase 1: the root is expanded to a small decision depth; phase 2: the cut prefixes are expanded
+    further in parallel until there are enough shards; phase 3: every shard is exhausted by a worker."""
     opts = dict(opts or {})
     t0 = time.time()
-    fn = _load(spec)
     res = dict(name=name, spec=[spec[0], spec[1], spec[2]], bounds=bounds, stats={}, violations=[],
-               inconclusive=[], samples=[], notes={}, exhausted=False)
-    # 1. profile + prefix enumeration in the master
-    prof = _Profile()
-    master = Explorer(solver_timeout_ms=opts.get("solver_timeout_ms", 10000),
-                      path_seconds=opts.get("path_seconds", 20))
-    depth = shard_depth if shard_depth is not None else 6
-    items = []
-    try:
-        while True:
-            master.stats = {k: 0 if isinstance(v, int) else 0.0 for k, v in master.stats.items()}
-            master.violations, master.samples, master.inconclusive, master.notes = [], [], [], {}
-            if not prof.seen:
-                sys.setprofile(prof)
-            try:
-                items = master.enumerate_prefixes(fn, depth)
-            finally:
-                sys.setprofile(None)
-            if not items or len(items) >= 6 * NPROC or depth >= 40 or NPROC == 1:
-                break
-            depth += 3
-    except BaseException as e:
-        res["inconclusive"].append("master error: %s: %s\n%s" % (type(e).__name__, e, traceback.format_exc()[-1500:]))
-        res["wall_s"] = time.time() - t0
-        res["functions"] = prof.names()
-        return res
-    _merge_stats(res["stats"], master.stats)
-    res["violations"] += [dict(v) for v in master.violations]
-    res["inconclusive"] += master.inconclusive
-    res["samples"] += master.samples
-    for k, v in master.notes.items():
-        res["notes"][k] = res["notes"].get(k, 0) + v
-    res["functions"] = prof.names()
-    res["shard_depth"] = depth
-    res["shards"] = len(items)
+               inconclusive=[], samples=[], notes={}, exhausted=False, functions=set())
+    ctx = mp.get_context("fork")
+    pool = ctx.Pool(NPROC) if NPROC > 1 else None
+
+    def run(tasks):
+        if pool is None:
+            return [_worker(t) for t in tasks]
+        return pool.imap_unordered(_worker, tasks, chunksize=1)
+
+    def absorb(o):
+        _merge_stats(res["stats"], o["stats"])
+        for v in o["violations"]:
+            c = res.setdefault("_vcount", {})
+            c[v["message"]] = c.get(v["message"], 0) + 1
+            if c[v["message"]] <= 3:
+                res["violations"].append(v)
+        res["inconclusive"] += o["inconclusive"]
+        if len(res["samples"]) < 4:
+            res["samples"] += o["samples"][:1]
+        for k, v in o["notes"].items():
+            res["notes"][k] = res["notes"].get(k, 0) + v
+        res["functions"].update(o.get("functions") or [])
+        return o
+
     exhausted = True
-    if items:
-        if NPROC == 1:
-            outs = map(_worker, [(spec, p, opts) for p in items])
-        else:
-            ctx = mp.get_context("fork")
-            pool = ctx.Pool(min(NPROC, len(items)))
-            outs = pool.imap_unordered(_worker, [(spec, p, opts) for p in items], chunksize=1)
-        for o in outs:
-            _merge_stats(res["stats"], o["stats"])
-            res["violations"] += o["violations"]
-            res["inconclusive"] += o["inconclusive"]
-            if len(res["samples"]) < 4:
-                res["samples"] += o["samples"][:1]
-            for k, v in o["notes"].items():
-                res["notes"][k] = res["notes"].get(k, 0) + v
+    try:
+        depth = shard_depth if shard_depth is not None else 5
+        step = 4
+        items = [[]]
+        first = True
+        while True:
+            outs = [absorb(o) for o in run([(spec, p, opts, depth) for p in items])]
+            first = False
+            items = [c for o in outs for c in o["cuts"]]
+            exhausted = exhausted and all(o["exhausted"] or o["cuts"] for o in outs)
+            if not items or len(items) >= 8 * NPROC or depth >= 60:
+                break
+            depth += step
+        res["shard_depth"] = depth
+        res["shards"] = len(items)
+        for o in run([(spec, p, opts, None) for p in items]):
+            absorb(o)
             exhausted = exhausted and o["exhausted"]
-        if NPROC != 1:
+    finally:
+        if pool is not None:
             pool.close()
             pool.join()
+    res["functions"] = sorted(res["functions"])
     res["exhausted"] = exhausted and not res["inconclusive"]
-    res["violations"] = res["violations"][:50]
+    res["violation_counts"] = res.pop("_vcount", {})
     res["inconclusive"] = res["inconclusive"][:10]
     res["wall_s"] = round(time.time() - t0, 2)
     return res
